@@ -19,8 +19,10 @@
 (*   PickArg       one model name per formal parameter that occurs (any    *)
 (*                 name declared so far: permuted, repeated, `time`,       *)
 (*                 derived quantities, reaction rates)                     *)
-(*   Reuse         instead: the slot takes the FUNCTION of an earlier      *)
-(*                 component, applied to the same names in another order   *)
+(*   Reuse/UseLib  instead: the slot takes the FUNCTION of an earlier      *)
+(*                 component, or one of two asymmetric library functions,  *)
+(*                 applied to its base arguments in another order (one     *)
+(*                 Python function shared by several components)           *)
 (*   Commit        the slot enters the model; a reaction also takes a      *)
 (*                 stoichiometry from a menu with numeric, fractional and  *)
 (*                 COMPUTED coefficients of either sign (parameter-, state-*)
@@ -232,6 +234,21 @@ PickArg ==
     /\ \E n \in Pool : args' = Append(args, n)
     /\ UNCHANGED <<c, slots, i, toks, todo, scheme>>
 
+\* Under the naming scheme "formal" the model names b, a, c ARE the formal parameter names.  PickFormal gives all
+\* arguments at once: the model names that coincide with the function's own parameters, in order, with the first
+\* two swapped, or rotated - `def f(a, b)` applied to ["a", "b"], ["b", "a"]: a renaming of the parameters one after
+\* the other (instead of simultaneously) maps both to the same name.
+Swap(a) == [k \in DOMAIN a |-> IF k = 1 THEN a[2] ELSE IF k = 2 THEN a[1] ELSE a[k]]
+Rot(a)  == [k \in DOMAIN a |-> a[(k % Len(a)) + 1]]
+InvFormal == [a |-> "y", b |-> "x", c |-> "p"]
+PickFormal ==
+    /\ Complete /\ scheme = "formal" /\ args = <<>> /\ Len(ParamsOf(Parsed)) >= 2
+    /\ LET ps == ParamsOf(Parsed)
+           base == [k \in DOMAIN ps |-> InvFormal[ps[k]]]
+       IN /\ SeqRange(base) \subseteq Pool
+          /\ \E as \in {base, Swap(base), Rot(base)} : args' = as
+    /\ UNCHANGED <<c, slots, i, toks, todo, scheme>>
+
 \* ---- stoichiometries ---------------------------------------------------------------------------
 Calc(e, a) == [k |-> "calc", fn |-> FnOf(e), args |-> a]
 Slot(kind) == \E j \in 1..(i - 1) : slots[j].kind = kind
@@ -281,28 +298,46 @@ Commit ==
 \* instead of simultaneously goes wrong.  (The replayer renders equal function records as ONE Python function.)
 Earlier == {j \in 1..(i - 1) : slots[j].kind \in {"der", "rxn"}}
 UseOf(j) == IF slots[j].kind = "der" THEN c.der[slots[j].name] ELSE c.rxn[slots[j].name]
-Swap(a) == [k \in DOMAIN a |-> IF k = 1 THEN a[2] ELSE IF k = 2 THEN a[1] ELSE a[k]]
-Rot(a)  == [k \in DOMAIN a |-> a[(k % Len(a)) + 1]]
 ReuseSt == {st \in StMenu : \A v \in DOMAIN st : st[v].k = "num"}      \* keeps the successor set small
-Reuse ==
-    /\ ~Done /\ toks = <<>> /\ todo = Fresh /\ slots[i].kind \in {"der", "rxn"}
-    /\ \E j \in Earlier :
-          /\ Len(UseOf(j).fn.params) >= 2
-          /\ \A m \in Earlier : m > j => Len(UseOf(m).fn.params) < 2          \* the most recent eligible one
-          /\ \E as \in {Swap(UseOf(j).args), Rot(UseOf(j).args)} :
-                LET s == slots[i] f == UseOf(j).fn IN
-                \/ /\ s.kind = "der"
-                   /\ c' = [c EXCEPT !.der = @ @@ (s.name :> [fn |-> f, args |-> as])]
-                \/ /\ s.kind = "rxn"
-                   /\ \E st \in {x \in ReuseSt : Cardinality(DOMAIN x) = 1} :
-                         c' = [c EXCEPT !.rxn = @ @@ (s.name :> [fn |-> f, args |-> as, st |-> st])]
+\* the slot takes function f applied to as (a reaction gets a numeric one-variable stoichiometry: small successor set)
+TakeFn(f, as) ==
+    /\ LET s == slots[i] IN
+          \/ /\ s.kind = "der"
+             /\ c' = [c EXCEPT !.der = @ @@ (s.name :> [fn |-> f, args |-> as])]
+          \/ /\ s.kind = "rxn"
+             /\ \E st \in {x \in ReuseSt : Cardinality(DOMAIN x) = 1} :
+                   c' = [c EXCEPT !.rxn = @ @@ (s.name :> [fn |-> f, args |-> as, st |-> st])]
     /\ i' = i + 1
     /\ toks' = <<>>
     /\ todo' = IF i + 1 <= Len(slots) THEN Fresh ELSE <<>>
     /\ args' = <<>>
     /\ UNCHANGED <<slots, scheme>>
 
-Next == Expand \/ PickArg \/ Commit \/ Reuse
+AtSlotStart == ~Done /\ toks = <<>> /\ todo = Fresh /\ slots[i].kind \in {"der", "rxn"}
+
+Reuse ==
+    /\ AtSlotStart
+    /\ \E j \in Earlier :
+          /\ Len(UseOf(j).fn.params) >= 2
+          /\ \A m \in Earlier : m > j => Len(UseOf(m).fn.params) < 2          \* the most recent eligible one
+          /\ \E as \in {Swap(UseOf(j).args), Rot(UseOf(j).args)} : TakeFn(UseOf(j).fn, as)
+
+\* Two asymmetric LIBRARY functions (every permutation of their arguments changes the value), offered to every
+\* derived-quantity / reaction slot with their base arguments in order, swapped or rotated.  Several components of
+\* one model therefore share `def f(a, b)` / `def g(a, b, c)` with different argument lists; under the scheme
+\* "formal" the base arguments are the model names that coincide with the function's own parameter names.
+Lib == {FnRec(<<"a", "b">>, Bin("sub", A, Bin("mul", Num(2), B))),
+        FnRec(<<"a", "b", "c">>, Bin("sub", Bin("mul", A, B), Bin("mul", Num(3), Var("c"))))}
+LibBase(f) == IF scheme = "formal" THEN [k \in DOMAIN f.params |-> InvFormal[f.params[k]]]
+              ELSE SubSeq(<<"x", "p", "q">>, 1, Len(f.params))
+UseLib ==
+    /\ AtSlotStart
+    /\ \E f \in Lib :
+          LET base == LibBase(f) IN
+          /\ SeqRange(base) \subseteq Pool
+          /\ \E as \in {base, Swap(base), Rot(base)} : TakeFn(f, as)
+
+Next == Expand \/ PickArg \/ PickFormal \/ Commit \/ Reuse \/ UseLib
 
 Spec == Init /\ [][Next]_vars
 
